@@ -99,6 +99,10 @@ pub fn drive(seed: u64, tier: &str, workdir: &str, out: &mut Out) {
     for (name, data) in inputs(&mut rng, tier) {
         let in_tok = toks.tok(&data);
         for c in 0u8..=4 {
+            // brotli at quality 11 needs ~20 s per megabyte in this profile: multi-megabyte inputs only in the thorough tier
+            if c == 3 && data.len() > 400_000 && tier != "thorough" {
+                continue;
+            }
             let comp = comp_of(c);
             let mut obs: Vec<Value> = Vec::new();
             // one-shot helpers
